@@ -8,3 +8,6 @@ import Tbx.Props.C12
 #print axioms Tbx.Props.C12.first_k_nearest
 #print axioms Tbx.Props.C12.queues_lawful
 #print axioms Tbx.Props.C12.judge_sound
+#print axioms Tbx.Props.C12.zorder_key
+#print axioms Tbx.Props.C12.zorder_total_preorder
+#print axioms Tbx.Props.C12.zsort_sorted_perm
